@@ -108,7 +108,7 @@ func parseFile(path string) (*ast.File, error) {
 	if err != nil {
 		return nil, err
 	}
-	return parser.ParseFile(token.NewFileSet(), path, src, 0)
+	return parser.ParseFile(token.NewFileSet(), path, src, parser.SkipObjectResolution)
 }
 
 // findVar returns the composite literal that initialises package-level
